@@ -32,6 +32,15 @@ pub fn argument_values(tier: Tier) -> Vec<RV> {
     };
     let mut out = vec![RV::Empty];
     out.extend(pool.iter().cloned());
+    // every pool value as a one-element tuple (cannot be written as a literal, but a variable or a user
+    // function can hold it), and some four-element tuples
+    for a in &pool {
+        out.push(RV::Tuple(vec![a.clone()]));
+    }
+    for a in &small {
+        out.push(RV::Tuple(vec![a.clone(), a.clone(), a.clone(), a.clone()]));
+        out.push(RV::Tuple(vec![a.clone(), RV::Int(1), RV::Int(2), RV::Str("a".into())]));
+    }
     for a in &pool {
         for b in &pool {
             out.push(RV::Tuple(vec![a.clone(), b.clone()]));
@@ -305,7 +314,7 @@ fn report(_cfg: &Cfg, stats: Stats, nargs: usize, unit: Unit) -> Report {
     Report {
         property: ID,
         level: "exploration",
-        rule: format!("complete matrix: 49 builtin names x {nargs} argument values (Empty; each pool value; every ordered pair of pool values as a 2-tuple; every ordered triple of a sub-pool as a 3-tuple), called as `f(x)` with x bound; plus every index pair (-1..=len+1)^2 of str::substring on four non-ASCII subjects with the len/substring consistency oracle; plus a character-class family (every Unicode White_Space code point, zero-width and control look-alikes, characters whose case mapping changes length or depends on position, at the start / end / both ends / interior of a short string) through str::trim, to_uppercase, to_lowercase, len, str::from, typeof and str::substring at every index; plus scaling families (min/max with the extreme at every position of n-tuples, contains/contains_any with the needle at every position, len/str::from/typeof of n-tuples, the str:: functions on strings of n characters, n in 1..20 and up to 129 / 1..40 and up to 400); a case is non-trivial when the reference yields a value (not an error, not unclaimed); each (name, argument) pair is enumerated once"),
+        rule: format!("complete matrix: 49 builtin names x {nargs} argument values (Empty; each pool value; each pool value as a 1-tuple; every ordered pair of pool values as a 2-tuple; every ordered triple of a sub-pool as a 3-tuple; 4-tuples of the sub-pool), called as `f(x)` with x bound; plus every index pair (-1..=len+1)^2 of str::substring on four non-ASCII subjects with the len/substring consistency oracle; plus a character-class family (every Unicode White_Space code point, zero-width and control look-alikes, characters whose case mapping changes length or depends on position, at the start / end / both ends / interior of a short string) through str::trim, to_uppercase, to_lowercase, len, str::from, typeof and str::substring at every index; plus scaling families (min/max with the extreme at every position of n-tuples, contains/contains_any with the needle at every position, len/str::from/typeof of n-tuples, the str:: functions on strings of n characters, n in 1..20 and up to 129 / 1..40 and up to 400); a case is non-trivial when the reference yields a value (not an error, not unclaimed); each (name, argument) pair is enumerated once"),
         nontrivial_set: "counter:nontrivial-distinct",
         exhaustive: true,
         bound_completed: format!("{nargs} argument values x 49 names; indexing unit inferred from len: {:?}", unit),
